@@ -3,6 +3,7 @@ from ..gens import *
 
 ID = "C20"
 LEAN_MODULE = "Ucfg.Props.C20"
+LEVEL_TEXT = 'parseField characterised through the regenerated guard (index iff non-negative integer literal within MaxIdx, otherwise a name), multi-segment rule, write growth bounded by MaxIdx+1.'
 CORRESPONDENCE = "Path.parseField/parsePath + Normalize.newFrom ~ ucfg.NewFrom(map{key: v}, opts)"
 RULE = ("key strings from the Go integer-literal grammar and near misses (plus random mutations of them), as whole keys and as "
         "dotted segments, x MaxIdx in {-1,0,1,7,1024,2^40} x EnableNumKeys x PathSep; kind 'intlit' compares IntLit.parseInt/"
